@@ -266,3 +266,39 @@ Definition abs_diff (t : ty) (a b : Z) : Z := wrapT t (if b <? a then a - b else
 
 (** (T(0) < val) - (val < T(0)) *)
 Definition sgn (v : Z) : Z := b2z (0 <? v) - b2z (v <? 0).
+
+(* ------------------------------------------------------------------ mixed operand types, byte-range popcount *)
+(** usual arithmetic conversions of two integer operand types (LP64: int = 32, long = long long = 64 bit):
+    promote both; equal width -> unsigned if either is unsigned; otherwise the wider type *)
+Definition common_type (t1 t2 : ty) : ty :=
+  let p1 := prom t1 in let p2 := prom t2 in
+  if width p1 =? width p2 then mkTy (width p1) (signed p1 && signed p2)
+  else if width p2 <? width p1 then p1 else p2.
+
+(** div_ceil<IntegralN, IntegralK>(n, k) -> decltype(n + k): both operands are converted to the common type first *)
+Definition div_ceil_mixed (tn tk : ty) (n k : Z) : Z :=
+  let R := common_type tn tk in
+  let n' := wrapT R n in let k' := wrapT R k in
+  wrapT R (Z.quot n' k' + b2z (0 <? Z.rem n' k')).
+Definition round_up_mixed (tn tk : ty) (n k : Z) : Z :=
+  let R := common_type tn tk in
+  wrapT R (div_ceil_mixed tn tk n k * wrapT R k).
+
+(** popcount(const void* data, size_t size) (repaired loads, fixes/C20/06): 8 bytes at a time through the
+    unsigned long overload, then at most one 4-byte word through the unsigned overload, then single bytes
+    (uint8_t promotes to the int overload); little-endian words = of_bytes *)
+Fixpoint pr_words (fuel : nat) (l : list Z) (total : Z) : option (list Z * Z) :=
+  match fuel with
+  | O => None
+  | S f => if 8 <=? Z.of_nat (length l)
+           then pr_words f (skipn 8 l) (total + popcount_intrinsic u64 (of_bytes (firstn 8 l)))
+           else Some (l, total)
+  end.
+Definition popcount_range (l : list Z) : option Z :=
+  match pr_words (S (length l)) l 0 with
+  | None => None
+  | Some (l1, t1) =>
+    let l2 := if 4 <=? Z.of_nat (length l1) then skipn 4 l1 else l1 in
+    let t2 := if 4 <=? Z.of_nat (length l1) then t1 + popcount_intrinsic u32 (of_bytes (firstn 4 l1)) else t1 in
+    Some (fold_left (fun acc b => acc + popcount_intrinsic i32 b) l2 t2)
+  end.
